@@ -434,6 +434,35 @@ func runC08(c *Ctx) {
 		c.Check(w == nil && len(f.Find(restart)) > 0, "delay≺restart", "every restart is preceded by the backoff computation", c.P.Pos(fn.Decl.Pos()), f.describe(w))
 		w = f.MayReach(f.Find(suspend), nil, restart)
 		c.Check(w == nil && len(f.Find(suspend)) > 0, "exhausted⇏restart", "an exhausted budget never restarts", c.P.Pos(fn.Decl.Pos()), f.describe(w))
+		// the fault count: a variable holding a recordFault result (directly or assigned from one); the window: the
+		// variable passed to recordFault
+		faultVars, windowVars := map[types.Object]bool{}, map[types.Object]bool{}
+		recObj := c.FuncObj("actor", "PID.recordFault")
+		isRec := func(e ast.Expr) bool {
+			call, ok := ast.Unparen(e).(*ast.CallExpr)
+			return ok && callee(info, call) == recObj
+		}
+		for pass := 0; pass < 2; pass++ {
+			ast.Inspect(fn.Decl.Body, func(n ast.Node) bool {
+				switch x := n.(type) {
+				case *ast.CallExpr:
+					if isRec(x) && len(x.Args) == 1 {
+						if o := objOf(info, x.Args[0]); o != nil {
+							windowVars[o] = true
+						}
+					}
+				case *ast.AssignStmt:
+					if len(x.Lhs) == 1 && len(x.Rhs) == 1 {
+						if lo := objOf(info, x.Lhs[0]); lo != nil {
+							if ro := objOf(info, x.Rhs[0]); isRec(x.Rhs[0]) || (ro != nil && faultVars[ro]) {
+								faultVars[lo] = true
+							}
+						}
+					}
+				}
+				return true
+			})
+		}
 		// the budget test: faults > maxRetries with window > 0
 		budget := map[Edge]bool{}
 		for _, b := range f.G.Blocks {
@@ -447,10 +476,10 @@ func runC08(c *Ctx) {
 					continue
 				}
 				if cm.Op == token.GTR {
-					if o := objOf(info, cm.L); o != nil && o.Name() == "faults" {
+					if o := objOf(info, cm.L); o != nil && faultVars[o] {
 						gt = true
 					}
-					if o := objOf(info, cm.L); o != nil && o.Name() == "window" {
+					if o := objOf(info, cm.L); o != nil && windowVars[o] {
 						win = true
 					}
 				}
@@ -467,7 +496,7 @@ func runC08(c *Ctx) {
 		okArg := false
 		for _, a := range f.Find(bo) {
 			call := a.N.(*ast.CallExpr)
-			if o := objOf(info, call.Args[0]); o != nil && o.Name() == "faults" {
+			if o := objOf(info, call.Args[0]); o != nil && faultVars[o] {
 				okArg = true
 			}
 		}
